@@ -403,6 +403,50 @@ macro_rules! native_ops {
     (@ty $x:ident) => { Tr };
 }
 
+/// depth-3/4 chains over a type-closed family: a sanity check of the composition argument, not the claim itself
+pub mod chains {
+    use crate::common::*;
+    use super::{alive, never, once};
+    harness! { unwind 9, fn lengthen_split_concat_iter() {
+        let a = tr_array::<U3>(0).append(Tr::new(3));
+        let (h, t): (GenericArray<Tr, U1>, GenericArray<Tr, U3>) = Split::<Tr, U1>::split(a);
+        let w: GenericArray<Tr, U4> = Concat::concat(t, h);          // ids 1,2,3,0
+        never(0, 4);
+        let mut it = w.into_iter();
+        let k = any_upto(5);
+        let x = it.nth(k);
+        let c = it.clone();
+        let v: Vec<Tr> = it.collect();
+        if let Some(x) = &x { alive(x); assert!(x.id as usize == (k + 1) % 4); }
+        assert!(v.len() == if k < 4 { 3 - k } else { 0 });
+        drop(x); drop(v);
+        once(0, 4);
+        let j = any_upto(3);
+        let pos = (j + 3) % 4;                                         // position of id j in the rotated order
+        assert!(drops(CLONE_OFFSET + j) == 0);
+        drop(c);
+        assert!(drops(CLONE_OFFSET + j) == if pos > k { 1 } else { 0 }, "clone of a remaining element not dropped exactly once / clone of a consumed element exists");
+        kani_cover!(k == 2);
+    }}
+    harness! { unwind 9, fn map_zip_pop_remove() {
+        let a = tr_array::<U4>(0);
+        let b: GenericArray<Tr, U4> = a.map(|x| { alive(&x); Tr::new(x.id as usize + CLONE_OFFSET) });   // ids 16..20
+        once(0, 4);
+        let c = tr_array::<U4>(32);
+        let z: GenericArray<Tr, U4> = b.zip(c, |x, y| { alive(&x); alive(&y); Tr::new(x.id as usize - CLONE_OFFSET + 8) }); // ids 8..12
+        once(CLONE_OFFSET, CLONE_OFFSET + 4); once(32, 36); never(8, 12);
+        let (first, rest) = z.pop_front();
+        let i = any_upto(2);
+        let (x, rest2) = rest.remove(i);
+        alive(&first); alive(&x);
+        assert!(first.id == 8 && x.id as usize == 9 + i);
+        let arr: [Tr; 2] = rest2.into_array();
+        never(8, 12);
+        drop(arr); drop(first); drop(x);
+        once(8, 12);
+        kani_cover!(i == 2);
+    }}
+}
 pub mod q {
     c03_lattice! { iter_op; n0: U0, 3; n1: U1, 4; n2: U2, 5; n3: U3, 6; n4: U4, 7; }
     c03_lattice! { iter_op_zst; n0: U0, 3; n3: U3, 6; n4: U4, 7; }
